@@ -5,7 +5,7 @@ it may modify.  Entries record themselves in interp.used_trusted so the evidence
 """
 import ast
 import z3
-from .core import (Val, VNone, VTrue, VFalse, VInt, VStr, VBool, VRef, VFloat, I, B, S, R, ArrIV, ClassName, IsSub,
+from .core import (tkey, Val, VNone, VTrue, VFalse, VInt, VStr, VBool, VRef, VFloat, I, B, S, R, ArrIV, ClassName, IsSub,
                    StrOf, ReprOf, IntOk, IntOf, FloatOk, FloatOf, Lower, Upper, Strip, Basename, Dirname, Unquote,
                    IdStr, TYPEBASE, Unsupported, FuncObj, BoundMethod, ClassObj, ModuleObj, ExternObj, BuiltinFn,
                    LogEntry)
@@ -14,6 +14,24 @@ from .interp_stmt import Seq
 from .contract import ANY as ANY_SORT, STR as P_STR
 
 NOOP_PREFIXES = ("logging.", "deep.logging.", "logging.config.")
+
+
+
+_CONTAINERS = {"str", "bytes", "dict", "list", "tuple", "set", "frozenset", "deque", "OrderedDict", "dict_keys",
+               "dict_items", "dict_values"}
+# abstract base class -> (built-in classes that are instances, protocol methods that make a repository class one)
+ABC_MEMBERS = {
+    "Iterable": (_CONTAINERS | {"generator"}, ["__iter__"]),
+    "Iterator": ({"generator"}, ["__iter__", "__next__"]),
+    "Generator": ({"generator"}, None),
+    "Sized": (_CONTAINERS, ["__len__"]),
+    "Container": (_CONTAINERS, ["__contains__"]),
+    "Collection": (_CONTAINERS, ["__len__", "__iter__", "__contains__"]),
+    "Mapping": ({"dict", "OrderedDict"}, None),
+    "Set": ({"set", "frozenset", "dict_keys", "dict_items"}, None),
+    "MutableSet": ({"set"}, None),
+    "MutableSequence": ({"list", "deque"}, None),
+}
 
 
 class LibMixin:
@@ -69,6 +87,8 @@ class LibMixin:
             nm = kob.dotted.split(".")[-1]
             if nm in self.table.ids:
                 kcid = self.table.id(nm)
+            elif nm in ABC_MEMBERS and kob.dotted.rsplit(".", 1)[0] in ("collections.abc", "typing", "collections"):
+                return Val.VBool(self.isinstance_abc(v, nm))
             else:
                 raise Unsupported("isinstance against extern %s" % kob.dotted)
         elif isinstance(kob, ClassObj):
@@ -78,6 +98,28 @@ class LibMixin:
         else:
             raise Unsupported("isinstance against %s" % type(kob).__name__)
         return Val.VBool(self.isinstance_term(v, kcid))
+
+    def isinstance_abc(self, v, nm):
+        """isinstance against an abstract base class of collections.abc that is not part of the class table: decided
+        by the table ABC_MEMBERS for the built-in classes, by the protocol methods for classes of the repository, an
+        uninterpreted (stable) predicate of the class for host classes."""
+        members, methods = ABC_MEMBERS[nm]
+        tg = self.tag(v, "isinstance-abc")
+        if tg != "ref":
+            return z3.BoolVal(tg in members)
+        cid = self.class_of(v, "isinstance-abc-class")
+        if self.is_host_class(cid):
+            return z3.Function("IsAbc_" + nm, I, B)(z3.Select(self.st.typeof, Val.r(v)))
+        t = self.table
+        anc = set(t.names[a] for a in t.ancestors(cid))
+        if anc & members:
+            return z3.BoolVal(True)
+        if nm in ("Mapping", "MutableMapping", "Iterable", "Sized", "Container", "Collection") and "MutableMapping" in anc:
+            return z3.BoolVal(True)
+        ci = t.info.get(cid)
+        if ci is not None and methods:
+            return z3.BoolVal(all(self.index.lookup_member(ci, m) is not None for m in methods))
+        return z3.BoolVal(False)
 
     def isinstance_term(self, v, kcid):
         t = self.table
@@ -644,7 +686,7 @@ class LibMixin:
         if not self.ctx.branch(n > 0, "pop-nonempty"):
             self.raise_("IndexError", anchor)
         self.check_owned(lst, node, "pop")
-        esort = self.st.ghost.get("elem_sorts", {}).get(str(z3.simplify(lst)))
+        esort = self.st.ghost.get("elem_sorts", {}).get(tkey(lst))
         if len(args) == 1:
             v = self.list_get(r, n - 1)
             if esort is not None:
@@ -673,9 +715,9 @@ class LibMixin:
     def b_list_copy(self, args, kwargs, node, anchor):
         r = Val.r(args[0])
         new = self.st.new_list_arr(self.lel(r), self.llen(r), "list")
-        es = self.st.ghost.get("elem_sorts", {}).get(str(z3.simplify(args[0])))
+        es = self.st.ghost.get("elem_sorts", {}).get(tkey(args[0]))
         if es is not None:
-            self.st.ghost["elem_sorts"][str(new)] = es
+            self.st.ghost["elem_sorts"][tkey(new)] = es
         return new
 
     def b_dict_pop(self, args, kwargs, node, anchor):
@@ -685,7 +727,7 @@ class LibMixin:
         if self.ctx.branch(had, "pop-has-key"):
             self.check_owned(d, node, "pop")
             val = self.dget(r, k)
-            vs = self.st.ghost.get("dict_value_sorts", {}).get(str(z3.simplify(d)))
+            vs = self.st.ghost.get("dict_value_sorts", {}).get(tkey(d))
             if vs is not None:
                 self.assume_shape(val, vs)
             self.dict_del(r, k)
@@ -712,7 +754,7 @@ class LibMixin:
             self.st.log.append(le)
             if self.ctx.branch(n > 0, "sort-nonempty"):
                 el = self.list_get(r, idx)
-                esort = self.st.ghost.get("elem_sorts", {}).get(str(z3.simplify(lst)))
+                esort = self.st.ghost.get("elem_sorts", {}).get(tkey(lst))
                 if esort is not None:
                     self.assume_shape(el, esort)
                 kv = self.call_value(key, [el], {}, node, anchor=anchor + "/key")
@@ -739,7 +781,7 @@ class LibMixin:
             self.ctx.assume(z3.Implies(self.dhas(r, k), z3.Implies(Val.is_VRef(val), z3.And(
                 Val.r(val) > 0, Val.r(val) < self.st.next_id,
                 self.host_or_builtin_class(z3.Select(self.st.typeof, Val.r(val)))))))
-        vs = self.st.ghost.get("dict_value_sorts", {}).get(str(z3.simplify(d)))
+        vs = self.st.ghost.get("dict_value_sorts", {}).get(tkey(d))
         if vs is not None:
             if vs.kind == "obj":
                 t = self.table
@@ -925,7 +967,7 @@ class LibMixin:
         self.st.llen = z3.Store(self.st.llen, r, n)
         jj = z3.Int("j!split")
         self.ctx.assume(z3.ForAll([jj], Val.is_VStr(z3.Select(arr, jj))))       # every part is text
-        self.st.ghost.setdefault("elem_sorts", {})[str(VRef(rid))] = P_STR
+        self.st.ghost.setdefault("elem_sorts", {})[tkey(VRef(rid))] = P_STR
         self.st.ghost.setdefault("str_lists", []).append(VRef(rid))
         self.st.ghost.setdefault("split_of", {})[rid] = (args[0], args[1] if len(args) > 1 else None)
         return VRef(rid)
